@@ -63,7 +63,7 @@ func (s step) text() string {
 		return "b:" + strings.Replace(hx.PktText(s.pkt), ":-", "", -1)
 	case "bauto":
 		return fmt.Sprintf("bauto%d", s.n)
-	case "waitret", "waitfut":
+	case "waitret", "waitfut", "trywaitfut":
 		return fmt.Sprintf("%s%d", s.op, s.c)
 	case "release", "waitgate":
 		return s.op + ":" + s.name
@@ -458,6 +458,17 @@ func runScenario(sc *scenario) (lines []string, direct []string, quiescent bool)
 			if !d.waitFut(s.c) {
 				d.fail("future of call=%d not resolved where the script expects it", s.c)
 			}
+		case "trywaitfut":
+			// give the future s.n ms to resolve; whether it does is the code's business (orders nothing)
+			d.mu.Lock()
+			ch := d.futs[s.c]
+			d.mu.Unlock()
+			if ch != nil {
+				select {
+				case <-ch:
+				case <-time.After(time.Duration(s.n) * time.Millisecond):
+				}
+			}
 		case "bsend":
 			d.conn.brokerSend(s.pkt)
 		case "idle":
@@ -667,6 +678,7 @@ func directClauses(rec *Rec) {
 			rested   bool
 			retFut   map[string]bool
 			subFails bool
+			gotRx    bool
 		}
 		var regs []*region
 		var cr *region
@@ -709,6 +721,10 @@ func directClauses(rec *Rec) {
 					cr.over = true
 				}
 			case "rx":
+				if !cr.gotRx && !strings.HasPrefix(ev[1], "connack:") {
+					cr.over = true // anything but a CONNACK as the first packet ends the client (ErrClientExpectedConnack)
+				}
+				cr.gotRx = true
 				if strings.HasPrefix(ev[1], "suback:") && strings.Contains(ev[1], "128") {
 					cr.over = true // a refused subscription cancels its future and closes the client
 				}
